@@ -1,52 +1,23 @@
-#![allow(clippy::type_complexity, clippy::too_many_arguments, dead_code, unused_imports)]
-mod engine;
-mod props;
+//! Command line driver shared by all check binaries.
 
-use engine::runner::{Failure, Report, Tier};
+use crate::engine::{self, runner::{Failure, Report, Tier}};
 
-type MainFn = fn(Tier, u64) -> Report;
-type ReplayFn = fn(&str, serde_json::Value) -> (Option<Failure>, u32, u32);
-
-fn registry() -> Vec<(&'static str, MainFn, ReplayFn)> {
-    vec![
-        ("C18", props::c18::main as MainFn, props::c18::replay as ReplayFn),
-        ("C13", props::c13::main as MainFn, props::c13::replay as ReplayFn),
-        ("C20", props::c20::main as MainFn, props::c20::replay as ReplayFn),
-        ("C12", props::c12::main as MainFn, props::c12::replay as ReplayFn),
-        ("C17", props::c17::main as MainFn, props::c17::replay as ReplayFn),
-        ("C19", props::c19::main as MainFn, props::c19::replay as ReplayFn),
-        ("C16", props::c16::main as MainFn, props::c16::replay as ReplayFn),
-        ("C14", props::c14::main as MainFn, props::c14::replay as ReplayFn),
-        ("C15", props::c15::main as MainFn, props::c15::replay as ReplayFn),
-        ("C01", props::c01::main as MainFn, props::c01::replay as ReplayFn),
-        ("C02", props::c02::main as MainFn, props::c02::replay as ReplayFn),
-        ("C03", props::c03::main as MainFn, props::c03::replay as ReplayFn),
-        ("C06", props::c06::main as MainFn, props::c06::replay as ReplayFn),
-        ("C07", props::c07::main as MainFn, props::c07::replay as ReplayFn),
-        ("C08", props::c08::main as MainFn, props::c08::replay as ReplayFn),
-        ("C09", props::c09::main as MainFn, props::c09::replay as ReplayFn),
-        ("C10", props::c10::main as MainFn, props::c10::replay as ReplayFn),
-        ("C11", props::c11::main as MainFn, props::c11::replay as ReplayFn),
-    ]
-}
+pub type MainFn = fn(Tier, u64) -> Report;
+pub type ReplayFn = fn(&str, serde_json::Value) -> (Option<Failure>, u32, u32);
 
 fn usage() -> ! {
-    eprintln!("usage: vcheck <Cnn> [--tier quick|thorough] [--replay <file>] [--verbose]");
+    eprintln!("usage: <check> [--tier quick|thorough] [--replay <file>] [--verbose]");
     std::process::exit(2)
 }
 
-fn main() {
+pub fn run(id: &'static str, main_fn: MainFn, replay_fn: ReplayFn) {
     let args: Vec<String> = std::env::args().skip(1).collect();
-    if args.is_empty() {
-        usage();
-    }
-    let id = args[0].clone();
     let mut tier = match std::env::var("VERIF_TIER").ok().as_deref() {
         Some("thorough") => Tier::Thorough,
         _ => Tier::Quick,
     };
     let mut replay: Option<String> = None;
-    let mut i = 1;
+    let mut i = 0;
     while i < args.len() {
         match args[i].as_str() {
             "--tier" => {
@@ -62,16 +33,14 @@ fn main() {
                 replay = Some(args.get(i).cloned().unwrap_or_else(|| usage()));
             }
             "--verbose" => engine::sim::set_verbose(true),
+            // the property id may be passed as first argument for symmetry with ./check
+            a if a == id => {}
             _ => usage(),
         }
         i += 1;
     }
     let seed: u64 = std::env::var("VERIF_SEED").ok().and_then(|s| s.parse::<i64>().ok()).map(|v| v as u64).unwrap_or(0);
     engine::sim::install_panic_hook();
-    let Some((_, main_fn, replay_fn)) = registry().into_iter().find(|(n, _, _)| *n == id) else {
-        eprintln!("unknown property {id}");
-        std::process::exit(2)
-    };
 
     // Wall-clock watchdog: a run that takes too long is inconclusive, never a violation.
     let budget_s: u64 = std::env::var("VERIF_WATCHDOG_S")
@@ -83,7 +52,7 @@ fn main() {
         });
     std::thread::spawn(move || {
         std::thread::sleep(std::time::Duration::from_secs(budget_s));
-        println!("INCONCLUSIVE property={id_w} watchdog after {budget_s}s", id_w = std::env::args().nth(1).unwrap_or_default());
+        println!("INCONCLUSIVE property={id} watchdog after {budget_s}s");
         std::process::exit(2);
     });
 
